@@ -156,6 +156,10 @@ def run(rep, repo, tier):
         return
     rep.count('writer_table_rows', len(wt.table))
     decs = sorted({v[1] for v in wt.table.values() if v[0] != 'BAD'})
+    from .. import lints as _lints
+    for rel_, line_, pat_, missing_ in _lints.regex_digit_gaps(repo, repo.rel('solver')):
+        rep.fail('C13.R2', rf.where, 'a pattern used on the reader side matches every digit of a number', got='%r (line %d of %s) never matches the digit(s) %s: an entry such as 10 or (20 is cut short or split' % (pat_, line_, rel_, missing_),
+                 want='\\d / [0-9]', construct='regular expression without the digit %s' % missing_[0], loc='%s:%d' % (rel_, line_))
     try:
         rt = T.ReaderTable(rf, decs, resolver=helper_resolver(repo, repo.rel('solver')))
     except Unknown as u:
